@@ -18,6 +18,9 @@ on event synchronization and event coincidence analysis
 """
 
 # array object and fast numerics
+from typing import Tuple
+from collections.abc import Hashable
+
 import numpy as np
 
 from ..eventseries import EventSeries
@@ -194,6 +197,14 @@ class EventSeriesClimateNetwork(EventSeries, ClimateNetwork):
                                 similarity_measure=measure_matrix,
                                 threshold=0, directed=self.directed,
                                 **CN_kwargs)
+
+    def __cache_state__(self) -> Tuple[Hashable, ...]:
+        # NOTE: combine the states of *both* base classes; the MRO alone
+        # would select the first base's state only. The `ClimateNetwork` part
+        # does not exist yet while `EventSeries.__init__()` runs.
+        return EventSeries.__cache_state__(self) + (
+            ClimateNetwork.__cache_state__(self)
+            if hasattr(self, "_mut_A") else ())
 
     def __str__(self):
         """
